@@ -15,7 +15,19 @@ from ..emitlib import SHELLS, ARRAY_START
 from ..sexp import Q
 
 MANIFEST = dict(
-    text='(filled in below)',
+    text=('Theorems C04_* (Props/C04.v, 21 statements): for the Gallina model of tables.rs get_lookup_tables and the dfa.rs getters, '
+          'and for EVERY duplicate-free literal order, the literal list numbers the literals consecutively from the shell\'s array base; the '
+          'match tables hold exactly the automaton\'s transitions on literals / commands / compadd commands / any-word / within-word automata '
+          '(sound always; complete unless two transitions of one state share a table key -- witness C04_refuted_same_text_two_levels); the '
+          'completion tables list for (level, state) exactly the inputs of that level leaving that state; one table set per within-word '
+          'automaton, computed from that automaton, with consecutive script ids; isomorphic_to = true implies identical tables except literal '
+          'texts and the completion-side compadd table (C04_refuted_zsh_compadd_levels is the machine-checked witness of that gap). '
+          'Model tied to the code per run: extracted all_tables fed Rust\'s minimised automaton and literal order == Rust\'s TABLES dump '
+          'exactly (main + every within-word automaton, 4 shells); extracted EmitBash.script (templates regenerated from bash.rs by T3) == '
+          'Rust\'s bash script byte for byte. Direct judgement: the extracted Spec.ScriptRead reader (shell syntax of the data statements + '
+          'ShellDQ for every constant) is applied to RUST\'s script for all four shells and the embedded automaton (states/ids minus the '
+          'shell\'s base, labels through the literal list, descriptions, command function bodies, shape sharing resolved, start state, '
+          'registration) must equal the automaton of Rust\'s MIN dump, main and within-word.'),
     design='6 C04',
     technique='Coq theorems (tables = automaton; codec round trip of the bash script) + extracted-model/implementation '
               'correspondence (tables exact, bash script byte for byte) + direct judgement by extracted script reader')
@@ -54,7 +66,7 @@ class G:
         r = self.r
         self.nsub += 1
         pre = r.choice(['--k%d=', '-o%d', 'p%d:', '--long-option-%d=']) % self.nsub
-        shape = shape or r.choice(['alt2', 'alt2', 'alt3', 'fb2', 'fb3', 'star', 'cmd', 'zsh', 'opt', 'altd', 'mix'])
+        shape = shape or r.choice(['alt2', 'alt2', 'alt3', 'fb2', 'fb3', 'star', 'cmd', 'zsh', 'opt', 'altd', 'mix', 'altstar'])
         vals = r.sample(VALS, 3)
         if shape == 'alt2':
             tail = ('alt', [('lit', v, None) for v in vals[:2]])
@@ -77,6 +89,8 @@ class G:
             tail = ('fb', [('nt', a), ('nt', b)]) if r.random() < 0.6 else ('nt', a)
         elif shape == 'opt':
             tail = ('opt', ('lit', vals[0], None))
+        elif shape == 'altstar':
+            tail = ('alt', [('lit', vals[0], None), ('nt', 'U')])
         else:
             tail = ('fb', [('lit', vals[0], None), self.nonterm(True)])
         return ('sub', [('lit', pre, None), tail])
@@ -147,6 +161,7 @@ FIXED = [
     'cmd a "";\n',
     'cmd {{{ }}} | x;\n',
     'cmd <U>;\n',
+    'cmd -o1(v|<U>) | -o2[w];\n',
     'cmd (a x || a y);\n',
     'cmd ({{{ echo c }}} x || {{{ echo c }}} y);\n',
     'cmd a;\n',
@@ -357,32 +372,32 @@ def run(ctx, res):
             res.evaluations += 1
             rust = norm_alltables(sexp.parse(st['TABLES']))
             mo = sexp.parse(by[(i, sh)])
+            tie = None
             if mo[0] != 'ok':
-                res.violations.append(report.Violation('tie T1 broken at stage tables: model says %s' % sexp.dump(mo)[:200],
-                                                       dict(replay, kind='tie-T1', stage='tables', model=by[(i, sh)][:2000]),
-                                                       found_input=False))
-                continue
-            mine = norm_alltables(mo[1])
-            valid = mo[2][1] == '1'
-            if mine != rust or not valid:
-                diff = [a[0] for a, b in zip(mine[1:], rust[1:]) if a != b]
-                res.violations.append(report.Violation(
-                    'tie T1 broken at stage tables (%s; literal order valid=%s)' % (diff, valid),
-                    dict(replay, kind='tie-T1', stage='tables', model=sexp.dump(mine)[:3000], impl=sexp.dump(rust)[:3000]),
-                    found_input=False))
-                continue
+                tie = report.Violation('tie T1 broken at stage tables: model says %s' % sexp.dump(mo)[:200],
+                                       dict(replay, kind='tie-T1', stage='tables', model=by[(i, sh)][:2000]), found_input=False)
+            else:
+                mine = norm_alltables(mo[1])
+                valid = mo[2][1] == '1'
+                if mine != rust or not valid:
+                    diff = [a[0] for a, b in zip(mine[1:], rust[1:]) if a != b]
+                    tie = report.Violation(
+                        'tie T1 broken at stage tables (%s; literal order valid=%s)' % (diff, valid),
+                        dict(replay, kind='tie-T1', stage='tables', model=sexp.dump(mine)[:3000], impl=sexp.dump(rust)[:3000]),
+                        found_input=False)
             if sh == 'bash' and (i, 'bash-script') in by:
                 mo = sexp.parse(by[(i, 'bash-script')])
                 text = emitlib.script_of(st.get('SCRIPT'))
                 if mo[0] != 'ok' or str(mo[1]) != text or mo[2] != '1':
                     why = 'model says %s' % sexp.dump(mo)[:100] if mo[0] != 'ok' else (
                         'orders/grouping not valid' if mo[2] != '1' else first_diff(str(mo[1]), text))
-                    res.violations.append(report.Violation(
+                    tie = tie or report.Violation(
                         'tie T1 broken at stage script (bash): ' + why,
-                        dict(replay, kind='tie-T1', stage='script', why=why), found_input=False))
-                    continue
-                script_ties += 1
-            res.traces_validated += 1
+                        dict(replay, kind='tie-T1', stage='script', why=why), found_input=False)
+                else:
+                    script_ties += 1
+            if tie is None:
+                res.traces_validated += 1
             # ---- direct judgement: what the script embeds (read by the extracted Spec.ScriptRead with the shell's
             # own quoting rules and index base) against the automaton of Rust's MIN dump
             verdict = judge(sh, st, by.get((i, sh, 'read')))
@@ -390,6 +405,8 @@ def run(ctx, res):
                 why, cls = verdict
                 res.violations.append(report.Violation('C04: ' + why, dict(replay, kind='spec-judgement', why=why,
                                                                           script=(emitlib.script_of(st.get('SCRIPT')) or '')[:6000]), cls=cls))
+            elif tie is not None:
+                res.violations.append(tie)
             elif len(res.samples) < 6 and (i * 7 + SHELLS.index(sh)) % 11 == 0 and len(field(rust, 'subwords')) > 1:
                 res.samples.append(dict(grammar=texts[i].decode('latin-1')[:300], shell=sh,
                                         read_statements=(by.get((i, sh, 'read')) or '')[:400]))
